@@ -799,6 +799,77 @@ func genC16() {
 		fail("C16: DB.UpdateSidecar: terminal-state guard not found")
 	}
 	l.p("def updateSidecarTemplateGuard : List String := %s", leanStrList(upd))
+	// rpcServer.CancelSidecar: the state handed to the negotiator through
+	// FinalizeTicket. The last assignment to `<ticket>.State` before the
+	// (last) top-level FinalizeTicket call must be StateCanceled.
+	cancelHandsCanceled := false
+	if fd := findFunc(root, "rpcServer.CancelSidecar"); fd != nil {
+		last := ""
+		for _, st := range fd.Body.List {
+			switch x := st.(type) {
+			case *ast.AssignStmt:
+				if len(x.Lhs) == 1 && len(x.Rhs) == 1 {
+					if sel, ok := x.Lhs[0].(*ast.SelectorExpr); ok && sel.Sel.Name == "State" {
+						last = strings.TrimPrefix(exprString(x.Rhs[0]), "sidecar.")
+					}
+				}
+			case *ast.ExprStmt:
+				if c, ok := x.X.(*ast.CallExpr); ok && strings.HasSuffix(exprString(c.Fun), ".FinalizeTicket") {
+					cancelHandsCanceled = last == "StateCanceled"
+				}
+			}
+		}
+	} else {
+		fail("C16: rpcServer.CancelSidecar not found")
+	}
+	l.p("def cancelSidecarHandsCanceled : Bool := %v", cancelHandsCanceled)
+
+	// clientdb.DB.Sidecars: the nested bid-template bucket (nil value) is
+	// SKIPPED without ending the iteration: `return nil` inside a ForEach
+	// callback, or `continue` inside a cursor loop
+	skips := false
+	if fd := findFunc(cdb, "DB.Sidecars"); fd != nil {
+		var walk func(n ast.Node, inCallback, inLoop bool)
+		walk = func(n ast.Node, inCallback, inLoop bool) {
+			ast.Inspect(n, func(m ast.Node) bool {
+				switch x := m.(type) {
+				case *ast.CallExpr:
+					if strings.HasSuffix(exprString(x.Fun), ".ForEach") && len(x.Args) == 1 {
+						if fl, ok := x.Args[0].(*ast.FuncLit); ok {
+							walk(fl.Body, true, false)
+							return false
+						}
+					}
+				case *ast.ForStmt:
+					walk(x.Body, false, true)
+					return false
+				case *ast.RangeStmt:
+					walk(x.Body, false, true)
+					return false
+				case *ast.IfStmt:
+					c := c16Canon(x.Cond, nil, 0)
+					if (strings.HasSuffix(c, "== nil") || strings.HasPrefix(c, "nil == ")) && !strings.Contains(c, "err") &&
+						len(x.Body.List) == 1 {
+						switch b := x.Body.List[0].(type) {
+						case *ast.ReturnStmt:
+							if inCallback && len(b.Results) == 1 && exprString(b.Results[0]) == "nil" {
+								skips = true
+							}
+						case *ast.BranchStmt:
+							if inLoop && b.Tok == token.CONTINUE {
+								skips = true
+							}
+						}
+					}
+				}
+				return true
+			})
+		}
+		walk(fd.Body, false, false)
+	} else {
+		fail("C16: clientdb.DB.Sidecars not found")
+	}
+	l.p("def sidecarsSkipsNestedBucket : Bool := %v", skips)
 	l.p("def resumeRemap : List (Nat × Nat) := [%s]", strings.Join(remapP, ", "))
 	l.p("def recipientResumeRemap : List (Nat × Nat) := [%s]", strings.Join(remapR, ", "))
 	l.p("def resumeCond : List String := %s", leanStrList(autoCond))
